@@ -83,6 +83,10 @@ func ValidateClientCredentialsRequest(ctx context.Context, request *oidc.ClientC
 	if err != nil {
 		return nil, nil, err
 	}
+	// like every other grant: client_secret_post clients are only served when the method is enabled
+	if client.AuthMethod() == oidc.AuthMethodPost && !exchanger.AuthMethodPostSupported() {
+		return nil, nil, oidc.ErrInvalidClient().WithDescription("auth_method post not supported")
+	}
 
 	tokenRequest, err := storage.ClientCredentialsTokenRequest(ctx, request.ClientID, request.Scope)
 	if err != nil {
